@@ -141,6 +141,8 @@ def pipeline_cfg(kinds, *, first_suffix=False, bad=None, overrides=None, suffix_
         c = copy.deepcopy(DEFAULT_STEP_CFG[kind])
         if overrides and i in overrides:
             c.update(overrides[i])
+            if "filter_method" in overrides[i] and overrides[i]["filter_method"] == "bilateral":
+                c.pop("filter_size", None)
         if bad is not None and i == bad:
             c[METHOD_KEY[kind]] = "vp_no_such_method"
         pipe[name] = c
@@ -167,3 +169,24 @@ def make_cv(costs, *, dmin, subpix=1, type_measure="min", window_size=1, vm=None
                      "offset_row_col": int((window_size - 1) / 2), "measure": measure, "type_measure": type_measure,
                      "cmax": cmax, "sampling_interval": 1, "col_to_compute": np.arange(col0, col0 + cols)})
     return cv
+
+
+def make_disp(disp, *, vm=None, dmin=-2, dmax=2, window_size=1, conf=None, row0=0, col0=0, subpix=1,
+              type_measure="min") -> xr.Dataset:
+    """A disparity dataset shaped like the output of the disparity step."""
+    disp = np.asarray(disp, dtype=np.float32)
+    rows, cols = disp.shape
+    ds = xr.Dataset({"disparity_map": (["row", "col"], disp.copy())},
+                    coords={"row": np.arange(row0, row0 + rows), "col": np.arange(col0, col0 + cols)})
+    ds["validity_mask"] = xr.DataArray(np.zeros((rows, cols), dtype=np.uint16) if vm is None
+                                       else np.asarray(vm).astype(np.uint16).copy(), dims=["row", "col"])
+    ds["disparity_interval"] = xr.DataArray(np.array([dmin, dmax]), coords=[("disparity", ["min", "max"])])
+    if conf is not None:
+        names, arr = conf
+        ds.coords["indicator"] = list(names)
+        ds["confidence_measure"] = xr.DataArray(np.asarray(arr, dtype=np.float32).copy(), dims=["row", "col", "indicator"])
+    ds.attrs.update({"crs": None, "transform": None, "valid_pixels": 0, "no_data_mask": 1, "no_data_img": -9999,
+                     "window_size": window_size, "subpixel": subpix, "band_correl": None,
+                     "offset_row_col": int((window_size - 1) / 2), "measure": "sad", "type_measure": type_measure,
+                     "cmax": 100, "sampling_interval": 1, "col_to_compute": np.arange(col0, col0 + cols)})
+    return ds
